@@ -659,7 +659,8 @@ def decide(pid, tier, seed):
         if bins is None:
             batch_fail.append((sname, cfg, "the harness does not build against the current tree:\n" + err, None))
             continue
-        extra = [] if kind in ("cov", "mon") else [c for c in corpus_cases if c.split(" ")[1].startswith("co:") == (kind == "co") and (f" {cfg}#" in c or "#" not in c)]
+        extra = [] if kind in ("cov", "mon") else [c for c in corpus_cases if c.split(" ")[1].startswith("co:") == (kind == "co") and (f" {cfg}#" in c or "#" not in c)
+                                                   and not c.split(" ")[1].startswith("nest_")]      # nests have no model: monitor-only suites
         cases = [c.split("#")[0].rstrip() for c in extra] + cases if sname.endswith("exhaustive") is False else cases
         stats["configs"].add(cfg)
         impl, err = run_impl(bins, kind, cases)
